@@ -87,8 +87,8 @@ Definition lift_names (r : nres) : M (string * string) :=
 
 (* ---------- helpers over nodes that do not visit ---------- *)
 
-(* rattr.ast.util.unravel_names(node) with basename_of (unsafe naming) *)
-Fixpoint unravel_names (n : node) {struct n} : M (list string) :=
+(* rattr.ast.util.unravel_names(node, _get_name=basename_of | fullname_of) (unsafe naming) *)
+Fixpoint unravel_gen (full : bool) (n : node) {struct n} : M (list string) :=
   match n with
   | ESeq k es _ =>
     match k with
@@ -96,20 +96,18 @@ Fixpoint unravel_names (n : node) {struct n} : M (list string) :=
     | _ => (fix go (l : list node) : M (list string) :=
               match l with
               | [] => ret []
-              | e :: r => a <- unravel_names e ;; b <- go r ;; ret (a ++ b)
+              | e :: r => a <- unravel_gen full e ;; b <- go r ;; ret (a ++ b)
               end) es
     end
-  | _ => if is_nameable n then bf <- lift_names (names_of false true n) ;; ret [fst bf]
+  | _ => if is_nameable n then bf <- lift_names (names_of false true n) ;; ret [if full then snd bf else fst bf]
          else raise "TypeError"
   end.
+Definition unravel_names : node -> M (list string) := unravel_gen false.
 
 (* Context.add_identifiers_to_context / remove_identifiers_from_context *)
 Definition add_identifiers (target : node) : M unit :=
   names <- unravel_names target ;;
   mapM_ (fun nm => mod_ctx (fun c => ctx_add c (mkSym nm KName) false)) names.
-Definition remove_identifiers (target : node) : M unit :=
-  names <- unravel_names target ;;
-  mapM_ (fun nm => mod_ctx (fun c => ctx_remove c nm)) names.
 
 Definition params_all (ps : params) : list string :=
   p_posonly ps ++ p_args ps ++ opt_list (p_vararg ps) ++ p_kwonly ps ++ opt_list (p_kwarg ps).
@@ -185,6 +183,12 @@ Fixpoint all_chars (f : ascii -> bool) (s : string) : bool :=
   match s with EmptyString => true | String c r => f c && all_chars f r end.
 Definition isidentifier (s : string) : bool :=
   match s with EmptyString => false | String c r => is_ident_start c && all_chars is_ident_char r end.
+
+(* Context.remove_identifiers_from_context: only the targets that are plain names are undefined - `del p.a` and
+   `del q[0]` leave p and q defined (fix 0e6fa15; the base names were removed before) *)
+Definition remove_identifiers (target : node) : M unit :=
+  names <- unravel_gen true target ;;
+  mapM_ (fun nm => mod_ctx (fun c => ctx_remove c nm)) (filter isidentifier names).
 
 Definition space : ascii := " "%char.
 Fixpoint split_space_aux (s cur : string) : list string :=
@@ -430,7 +434,7 @@ Section Analyser.
          end)
         (visit t ;;; visit v)
     (* ---- visit_Delete ---- *)
-    | SDelete ts _ => mapM_ remove_identifiers ts ;;; vlist ts
+    | SDelete ts _ => vlist ts ;;; mapM_ remove_identifiers ts       (* the targets are visited while still defined (fix 686ac63) *)
     (* ---- visit_For / AsyncFor ---- *)
     | SFor t it body orelse _ =>
       add_identifiers t ;;; visit t ;;; visit it ;;; vlist body ;;; vlist orelse
@@ -464,7 +468,14 @@ Section Analyser.
     | ESeq _ es _ => vlist es
     | EDict ks vs => vlist ks ;;; vlist vs
     | EWithItem c vs => visit c ;;; vlist vs
-    | Other _ _ cs => vlist cs
+    | Other k bs cs =>
+      (* visit_ExceptHandler: `except E as name` defines name for the handler and undefines it afterwards (fix 5c7d323) *)
+      match bs with
+      | [nm] => if String.eqb k "ExceptHandler"
+                then mod_ctx (fun c => ctx_add c (mkSym nm KName) false) ;;; vlist cs ;;; mod_ctx (fun c => ctx_remove c nm)
+                else vlist cs
+      | _ => vlist cs
+      end
     | EConst _ | ENoKey => ret tt
     end
 
